@@ -90,8 +90,8 @@ def history_events(descs, fr, rng, scribble=True):
         ret = x["ret"]
         if scribble and isinstance(ret, list):
             ret.reverse()
-            ret.append(("scribble",))
             del ret[0:1]
+            ret.append(("scribble",))          # appended last, so that even an empty list comes back changed
     return ev
 
 
